@@ -2046,6 +2046,11 @@ class Executor:
                     items.append(V(Val.hd(t), ety))
                     t = Val.tl(t)
                 res.items = items
+            # the objects a (non-pure) callee returns exist at return: what this function allocates later is distinct from them
+            if not (con.pure and not con.modifies):
+                for rv_ in ([res] + (res.items or [])):
+                    if rv_.kind in ('ref', 'list', 'dict', 'set', 'opt', 'any'):
+                        self.returned_object(st, rv_.t)
             return res
         finally:
             self.frames.pop()
